@@ -615,16 +615,35 @@ class TryProductScen(Base):
         for j, t in enumerate(self.targets):
             self.callee(t, self.dut.targets[j])
         self.caller("c", self.dut.method)
+        if c.get("rival"):  # another transaction calls target 0 directly and competes with the product for it
+            self.caller("rv", self.dut.targets[0])
         self.setup_common()
         return self.top
 
-    stimulus = ProductScen.stimulus
+    def stimulus(self, rng, cyc):
+        stim = ProductScen.stimulus(self, rng, cyc)
+        if self.cfg.get("rival"):
+            stim["rv.en"] = int(rng.random() < 0.6)
+            for name in self.inp:
+                if name.startswith("rv.i."):
+                    stim[name] = self.rnd(rng, name)
+        return stim
 
     def check(self, cyc, stim, obs):
         te = self.readiness_cov(stim, stim.get("c.en", 0))
         # "the methods which are not ready are not called": no readiness pattern blocks the product
         en, done = self.caller_ready_check("c", stim, obs, True, f"targets ready={te}")
         td = [obs[f"{t}.done"] for t in self.targets]
+        rv = bool(self.cfg.get("rival") and obs["rv.done"])
+        if rv:
+            # target 0 served the rival in this cycle: the product did not call it (whichever of the two gets a
+            # contended target is the scheduler's choice) and must not report success for it
+            self.expect(td[0] == 1, "target-call-mismatch", "rival caller of target 0 done, target 0 not executed")
+            self.expect(self.vals(obs, "t0.arg", self.il) == self.vals(stim, "rv.i", self.il), "arg-mismatch",
+                        "target 0 executed for the rival with another argument", port="t0")
+            td = [0] + td[1:]
+            te = [0] + list(te[1:])
+            self.hit("rival_took_target_from_product" if done else "rival_alone")
         want = [int(bool(done and e)) for e in te]
         self.expect(td == want, "target-call-mismatch",
                     f"try-product executed={done}, targets ready={te} but executed={td}: exactly the ready targets are called")
@@ -809,6 +828,7 @@ class Prop(PropBase):
         elif kind == "tryproduct":
             cfg["n"] = rng.randint(1, 4)
             cfg["combiner"] = rng.choice([None, "report", "report"])
+            cfg["rival"] = int(rng.random() < 0.35)
         elif kind == "nonexclusive":
             cfg["ncallers"] = rng.randint(1, 3)
         elif kind == "collector":
